@@ -42,18 +42,18 @@ from ..mon.compare import compare_arrays, lazy_meta_mismatch
 
 PROP = "C32"
 RULE = ("part A cases = (data vector, chunking, method, sorted q vector or scalar q). Complete part: every chunking of "
-        "arrays of length 1..8 (255 chunkings) x 4 data vectors over the alphabet {0,1,2,5} with duplicates x 5 methods with "
-        "q = (0,10,25,50,75,90,100); thorough adds every array over {0,1,3} of length <= 5 x every chunking x 5 methods. "
+        "arrays of length 1..8 (255 chunkings) x 2 (thorough: 4) data vectors over the alphabet {0,1,2,5} with duplicates x 5 "
+        "methods with q = (0,10,25,50,75,90,100); thorough adds every array over {0,1,3} of length <= 5 x every chunking x 5 methods. "
         "Random part: lengths 1..60, int8/int64/uint8/float32/float64, small alphabets / wide values / +-inf facet, random "
         "chunkings, random sorted q vectors (0 and 100 included in most) and scalar q. part B cases = (shape 1-3 d, "
         "float/int data with NaN (all-NaN slices, inf facet), chunking, axis, q scalar|vector, method, keepdims). "
         "non-trivial = percentile axis (A) or any axis (B) split into >= 2 chunks; distinct = distinct case descriptions.")
 ASSUMPTIONS = ["NumPy 2.x min/max and nanpercentile are the reference", "sync scheduler"]
-BUDGET = {"quick": 45, "thorough": 500}
+BUDGET = {"quick": 40, "thorough": 500}
 FLOORS = {"quick": {"evaluations": 100, "distinct_nontrivial": 50}, "thorough": {"evaluations": 100, "distinct_nontrivial": 50}}
 EXHAUSTIVE_SPACE = {
-    "quick": "all 255 chunkings of arrays of length 1..8 x 4 data vectors with duplicates x 5 methods, q=(0,10,25,50,75,90,100)",
-    "thorough": "quick space + every array over {0,1,3} of length <= 5 x every chunking x 5 methods",
+    "quick": "all 255 chunkings of arrays of length 1..8 x 2 data vectors with duplicates x 5 methods, q=(0,10,25,50,75,90,100)",
+    "thorough": "all 255 chunkings of length 1..8 x 4 data vectors x 5 methods + every array over {0,1,3} of length <= 5 x every chunking x 5 methods",
 }
 CLAIM = ("Every da.percentile result observed on NaN-free 1-d data was checked to lie within [min, max], to be non-decreasing "
          "in q and to hit min / max at q = 0 / 100 (up to rounding); every da.nanpercentile result along an axis was compared "
@@ -79,7 +79,7 @@ def cases(tier, seed):
     # ---- complete part --------------------------------------------------------------------------
     for n in range(1, 9):
         for chunks in A.compositions(n):
-            for vec in VECS:
+            for vec in (VECS if tier == "thorough" else ("mixed", "desc")):
                 for m in METHODS:
                     yield {"space": "exhaustive", "part": "A", "vec": vec, "n": n, "chunks": list(chunks), "method": m,
                            "dtype": "int64", "q": QFIX}
@@ -91,7 +91,7 @@ def cases(tier, seed):
                         yield {"space": "exhaustive", "part": "A", "vals": list(vals), "n": n, "chunks": list(chunks),
                                "method": m, "dtype": "float64", "q": QFIX}
     # ---- random part ---------------------------------------------------------------------------
-    k = 3600 if tier == "quick" else 70000
+    k = 2600 if tier == "quick" else 70000
     for _ in range(k):
         if rng.random() < 0.6:
             n = rng.choice((1, 2, 3, 4, 5, 6, 8, 10, 13, 20, 33, 60))
